@@ -38,6 +38,29 @@ func init() {
 			ic.FilterFirst = true
 			return &progCase{P: gen.BuildInherit(ic)}
 		})
+		// a failure inside a capturing construct, directly after some text of
+		// that construct: what was captured so far must not have reached the main
+		// writer (the output at the time of the error is a prefix of the model's)
+		sub.Rapid(c, c.Share(c.Pick(5000, 250000)), func(t *rapidT) *progCase {
+			var prog *m.Program
+			if rapidInt(t, 0, 1) == 0 {
+				ic := gen.GenInherit(t)
+				ic.FilterFirst = rapidInt(t, 0, 1) == 0
+				prog = gen.BuildInherit(ic)
+			} else {
+				prog = progGen(cfg)(t).P
+			}
+			tp := prog.Tpls[rapidInt(t, 0, len(prog.Tpls)-1)]
+			n := countStmts(tp.Body)
+			idx := rapidInt(t, 0, n)
+			ok := true
+			fail := []*m.N{m.NText("<partial>"), m.NPrint(m.ECall("nosuchfunction"))}
+			if rapidInt(t, 0, 2) == 0 {
+				fail = []*m.N{m.NText("<partial>"), {K: "include", X: m.EStr("no-such-template")}}
+			}
+			tp.Body = insertBefore(tp.Body, &idx, fail, false, &ok)
+			return &progCase{P: prog}
+		})
 	}
 	Register(p)
 }
